@@ -404,34 +404,47 @@ def run(ctx):
                       "the in-loop and end-of-input sites test the non-blank cursor differently (%s vs %s)" % (shapes[0], shapes[1]), fn_span(body))
         # D3 transfer table of the scan loop: the per-byte update of (line start, first-non-blank cursor, trimming flag)
         scan_transfer(ctx, body, paths, guards)
-        # D2 producer
-        pushes = {}
-        for p in paths:
-            for e in p.events:
-                if ev_is(e, "Vec::push") and mentions(e.args[0], lambda s: s[0] == "field" and s[3] == "entries"):
-                    pushes[e.bb] = (e, p)
-        ctx.floor("D2-PRODUCER", PFB, "entry pushes", len(pushes), 1)
-        for bb, (e, p) in pushes.items():
-            v = e.args[1]
-            fb = find_calls(v, EFB)
-            ok = len(fb) >= 1 and has_try(v)
+        # D2 producer: entries = [PlistEntry::from_bytes(&bytes[s..e])? for (s, e) in recorded lines], in recording order; recognised as a push loop
+        #              or as lines.into_iter().map(..).collect::<Result<Vec<_>>>()? (lib.accumulation)
+        rec = {g[3].args[0][1][1] for g in guards.values() if isinstance(g[3].args[0], tuple) and g[3].args[0][0] == "refmut"}
+        oks = [p for p in ret_paths(paths) if unwrap_ok(p.end[1]) is not None]
+        ctx.floor("D2-PRODUCER", PFB, "Ok-returning paths", len(oks), 1)
+        accs = []
+        for p in oks[:1]:
+            v = unwrap_ok(p.end[1])
+            ent = None
+            av = agg_variant(v)
+            if av and "entries" in (v[5] or ()):
+                ent = dict(zip(v[5], av[2])).get("entries")
+            elif isinstance(v, tuple) and v[0] in ("havoc", "mutated"):
+                ent = ("field", v, 0, "entries")
+            acc = accumulation(ctx, PFB, ent, paths) if ent is not None else None
+            accs.append(acc)
+            ok = acc is not None
+            why = "the returned entries are not built one per recorded line (no push loop / map+collect over the recorded lines was recognised)"
             if ok:
-                sl = strip_refs(call_args(fb[0])[0])
-                ok = is_call(sl, "ops::Index>::index", "Index<I> for [T]>::index") and strip_refs(call_args(sl)[0]) == ("param", 1)
+                it = acc["item"]
+                fb = find_calls(it, EFB)
+                ok = len(fb) >= 1 and acc["fallible"]
+                why = "an entry is %s: expected PlistEntry::from_bytes(&bytes[s..e])? of a recorded line" % term_str(it)[:120]
                 if ok:
-                    va = agg_variant(call_args(sl)[1])
-                    ok = bool(va) and va[1] == "Range"
+                    sl = strip_refs(call_args(fb[0])[0])
+                    ok = is_index_call(sl) and strip_refs(call_args(sl)[0]) == ("param", 1)
+                    rg = canon_range(call_args(sl)[0], call_args(sl)[1]) if ok else None
+                    ok = ok and rg is not None and rg[1] != LEN and is_elem(rg[0]) and is_elem(rg[1]) and strip_refs(rg[0]) != strip_refs(rg[1])
+                    # start = first component, end = second component of the recorded pair
                     if ok:
-                        a, b = va[2]
-                        nx = [s for s in subterms(a) if is_call(s, "IntoIter as std::iter::Iterator>::next", "Iter as std::iter::Iterator>::next")]
-                        ok = bool(nx) and mentions(b, lambda s: s == nx[0]) and a != b
-                        # the iterated vector is the recorded one
-                        rec = {g[3].args[0][1][1] for g in guards.values() if isinstance(g[3].args[0], tuple) and g[3].args[0][0] == "refmut"}
-                        ok = ok and any(mentions(nx[0], lambda s, l=l: s[0] in ("mutated", "havoc", "loc") and s[1] == l) for l in rec)
-            ctx.check(ok, "D2-PRODUCER", PFB, "push@entries", "entries.push(PlistEntry::from_bytes(&bytes[s..e])?) for each recorded (s,e)",
-                      "an entry is pushed that is not PlistEntry::from_bytes(&bytes[s..e])? of a recorded line", body.span_of(bb))
-        only_appended(ctx, "D2-PRODUCER", PFB, "plist.entries", lambda t: mentions(t, lambda s: s[0] == "field" and s[3] == "entries"))
-        recl = {g[3].args[0][1][1] for g in guards.values() if isinstance(g[3].args[0], tuple) and g[3].args[0][0] == "refmut"}
+                        f0 = [x for x in subterms(rg[0]) if x[0] == "field" and x[2] in (0, 1)]
+                        f1 = [x for x in subterms(rg[1]) if x[0] == "field" and x[2] in (0, 1)]
+                        ok = bool(f0) and bool(f1) and f0[0][2] == 0 and f1[0][2] == 1
+                        why = "the entry is cut as bytes[%s..%s], not bytes[start..end] of the recorded pair" % (term_str(rg[0])[:40], term_str(rg[1])[:40])
+                ok = ok and (bool(acc["locals"] & rec) or mentions(acc["src"], lambda s_: s_[0] in ("havoc", "mutated", "loc") and s_[1] in rec))
+                if fb and not (bool(acc["locals"] & rec) or mentions(acc["src"], lambda s_: s_[0] in ("havoc", "mutated", "loc") and s_[1] in rec)):
+                    why = "the entries are built from %s, not from the recorded lines" % term_str(acc["src"])[:80]
+            ctx.check(ok, "D2-PRODUCER", PFB, "push@entries", "entries = from_bytes(&bytes[s..e])? for each recorded (s,e), in order (%s form)" % (acc["form"] if acc else "?"), why, fn_span(body))
+        if accs and accs[0] is not None and accs[0]["form"] == "loop":
+            only_appended(ctx, "D2-PRODUCER", PFB, "plist.entries", lambda t: mentions(t, lambda s: s[0] == "field" and s[3] == "entries"))
+        recl = rec
         only_appended(ctx, "D2-PRODUCER", PFB, "recorded-lines", lambda t: isinstance(t, tuple) and t[0] == "loc" and t[1] in recl, floor=2)
         errprop(ctx, PFB, paths, body, rule="D2-ERRPROP", no_effects_after_error=("Vec::push",), floor=1)
 
